@@ -70,6 +70,17 @@ func planFor(prop, tier string) plan {
 			p.Configs = append(p.Configs, more...)
 			p.Alpha.Transfer = true
 		}
+	case "C08":
+		p.Alpha = Alphabet{Creates: creates(!quick), Adds: [][2]int64{{1000, 1000}}, Withdraws: [][2]int64{{1, 3}, {1, 1}},
+			SwapIn: []int64{999, 400000, 30000000}, SwapOut: []int64{250000}, Claims: true, Transfer: true, Incentive: true, Ticks: []int{0, 1, 2}}
+		p.Seeds = []string{"init", "twins", "gap", "overlap"}
+		if quick {
+			p.Depth, p.SeedDep = 3, 2
+			p.Configs = p.Configs[:2]
+		} else {
+			p.Depth, p.SeedDep = 4, 3
+			p.Configs = append(p.Configs, more...)
+		}
 	case "C03":
 		// LP/swap sub-alphabet only: it generates the pool states; the swaps under test are the probe
 		// set evaluated in every state (oracle_c03.go).
@@ -113,6 +124,13 @@ func seedOps(name string, cfg Config) []Op {
 	case "overlap":
 		return []Op{first, {K: "create", A: "B", R: 1, X: cfg.First0, Y: cfg.First1}, {K: "create", A: "B", R: 4, X: cfg.First0, Y: cfg.First1},
 			{K: "swapin", D: 0, X: cfg.First0 / 3}, {K: "tick", D: 0}, {K: "swapin", D: 1, X: cfg.First1 / 2}}
+	case "twins":
+		// two identical positions born in the same block by different owners, a third with the same range
+		// and more liquidity, one never-in-range position, and one incentive per uptime
+		return []Op{first, {K: "create", A: "B", R: 0, X: cfg.First0, Y: cfg.First1}, {K: "create", A: "B", R: 0, X: 3 * cfg.First0, Y: 3 * cfg.First1},
+			{K: "create", A: "A", R: 2, X: cfg.First0, Y: 0},
+			{K: "incentive", X: 1000000, Y: 10, D: 0}, {K: "incentive", X: 7777, Y: 1, D: 1}, {K: "incentive", X: 500000, Y: 3, D: 2},
+			{K: "swapin", D: 0, X: cfg.First0 / 50}, {K: "tick", D: 1}}
 	case "gap":
 		return []Op{first, {K: "create", A: "B", R: 2, X: cfg.First0, Y: 0}, {K: "create", A: "B", R: 3, X: 0, Y: cfg.First1},
 			{K: "incentive", X: 1000000, Y: 10, D: 0}, {K: "withdraw", P: 0, X: 1, Y: 1}, {K: "tick", D: 1}}
@@ -123,6 +141,9 @@ func seedOps(name string, cfg Config) []Op {
 func buildSeed(w *World, name string) (sdk.Context, *Ledger, error) {
 	ctx, _ := w.Env.Ctx.CacheContext()
 	l := &Ledger{}
+	if trackRewards {
+		l.R = newRewards()
+	}
 	var ferr error
 	for _, op := range seedOps(name, w.Cfg) {
 		var out string
@@ -158,9 +179,14 @@ func checker(w *World, prop string, r *core.Result) func(ctx sdk.Context, l *Led
 		case "C03":
 			w.CheckC07(ctx, l, func(a, s, d string) {}, r.Vacuity)
 			w.CheckC03(ctx, l, fail, r)
+		case "C08":
+			w.CheckC07(ctx, l, func(a, s, d string) {}, r.Vacuity)
+			w.CheckC08(ctx, l, fail, r)
 		}
 	}
 }
+
+var trackRewards bool
 
 type replayCfg struct {
 	Config Config `json:"config"`
@@ -199,6 +225,7 @@ func runReplay(f *core.Flags, r *core.Result) {
 func main() {
 	f := core.ParseFlags()
 	r := core.NewResult(f.Prop)
+	trackRewards = f.Prop == "C08"
 	r.Extra["max_dust_pool"] = float64(0)
 	if f.Replay != "" {
 		runReplay(f, r)
